@@ -268,24 +268,29 @@ func replayOnce(cfg config, hist []string, wantTrace bool) result {
 	leases := sessrig.NewLeases()
 	var out result
 	var faults []faultInfo
-	viol := func(i int, e event, kind, which, format string, args ...interface{}) result {
-		f := map[string]string{"kind": kind, "which": which, "ks": fmt.Sprint(cfg.KS), "detected_at": e.Op, "faults": fmt.Sprint(len(faults))}
-		if len(faults) > 0 {
-			f["fault"] = faults[0].op + "_" + faults[0].kind
-			f["cmd"] = faults[0].cmd
-			f["phase"] = faults[0].phase
+	faultedLease := map[int]bool{}
+	var cur struct {
+		entries []sessrig.Entry
+		before  sessState
+	}
+	viol := func(i int, e event, kind string, lease int, format string, args ...interface{}) result {
+		which := "other_conn"
+		if faultedLease[lease] {
+			which = "faulted_conn"
+		}
+		f := map[string]string{"kind": kind, "which": which, "ks": fmt.Sprint(cfg.KS), "detected_at": e.Op, "faults": fmt.Sprint(len(faults)),
+			"mech": mechOf(cfg, kind, lease, e.Op, cur.entries, cur.before, w)}
+		if n := len(faults); n > 0 {
+			f["fault"] = faults[n-1].op + "_" + faults[n-1].kind
+			f["cmd"] = faults[n-1].cmd
+			f["phase"] = faults[n-1].phase
 		} else {
 			f["fault"], f["cmd"], f["phase"] = "none", "none", "none"
 		}
-		if len(faults) > 1 {
-			f["fault2"] = faults[1].op + "_" + faults[1].kind
-			f["cmd2"] = faults[1].cmd
-		}
-		out.res.Violation = fmt.Sprintf("step %d %s: %s: ", i, e, kind) + fmt.Sprintf(format, args...)
+		out.res.Violation = fmt.Sprintf("step %d %s: %s [%s]: ", i, e, kind, f["mech"]) + fmt.Sprintf(format, args...)
 		out.res.Features = f
 		return out
 	}
-	faultedLease := map[int]bool{}
 	for i, hs := range hist {
 		e := parseEvent(hs)
 		before := snapshot(w, a)
@@ -305,9 +310,13 @@ func replayOnce(cfg config, hist []string, wantTrace bool) result {
 			out.calls = resp.Calls
 		}
 		if e.F != nil && len(resp.Fired) == 0 {
-			// the enumerated fault position does not exist (can only happen through --replay of a
-			// hand-written case): treat as engine error
-			ev.Fatalf("fault %s of event %d (%s) did not fire", e.F, i, hs)
+			// The enumerated position exists in ascending order (that is how it was probed) but
+			// not in this order variant: an earlier connection of the loop failed first and the
+			// loop stopped. The run is then identical to the unfaulted variant of the event,
+			// which is enumerated as well: drop this history.
+			atomic.AddInt64(&unfired, 1)
+			out.res = xstate.Result{Key: "fault position does not exist in this iteration order", Stop: true}
+			return out
 		}
 		// --- order pinning ---
 		failing := false
@@ -363,14 +372,9 @@ func replayOnce(cfg config, hist []string, wantTrace bool) result {
 			faults = append(faults, fi)
 		}
 		// --- oracle ---
-		which := func(lease int) string {
-			if faultedLease[lease] {
-				return "faulted_conn"
-			}
-			return "other_conn"
-		}
+		cur.entries, cur.before = entries, before
 		if br := leases.Feed(led); len(br) > 0 {
-			return viol(i, e, br[0].Kind, which(br[0].Entry.Lease), "%s", br[0])
+			return viol(i, e, br[0].Kind, br[0].Entry.Lease, "%s", br[0])
 		}
 		ended := resp.Ended || a.Ended
 		after := snapshot(w, a)
@@ -393,7 +397,7 @@ func replayOnce(cfg config, hist []string, wantTrace bool) result {
 				if c.InTx {
 					k = "open_tx_at_session_end"
 				}
-				return viol(i, e, k, which(c.Lease), "connection of %s (closed=%v, backend transaction open=%v) was never given back although the session ended", c.Pool, c.Closed, c.InTx)
+				return viol(i, e, k, c.Lease, "connection of %s (closed=%v, backend transaction open=%v) was never given back although the session ended", c.Pool, c.Closed, c.InTx)
 			}
 		} else {
 			for _, c := range outst {
@@ -401,7 +405,7 @@ func replayOnce(cfg config, hist []string, wantTrace bool) result {
 					continue
 				}
 				if _, ok := referenced[c.Lease]; !ok {
-					return viol(i, e, "leak_unreferenced", which(c.Lease), "connection of %s (closed=%v, backend transaction open=%v) is still taken from its pool but the session has forgotten it (not in txConns/ksConns): it can never be given back", c.Pool, c.Closed, c.InTx)
+					return viol(i, e, "leak_unreferenced", c.Lease, "connection of %s (closed=%v, backend transaction open=%v) is still taken from its pool but the session has forgotten it (not in txConns/ksConns): it can never be given back", c.Pool, c.Closed, c.InTx)
 				}
 			}
 			// a connection the session still refers to must still be leased to it
@@ -414,12 +418,12 @@ func replayOnce(cfg config, hist []string, wantTrace bool) result {
 				for _, s := range sl {
 					c := m[s]
 					if !c.Out || leases.Released[c.Lease] > 0 {
-						return viol(i, e, "dangling_reference", which(c.Lease), "the session still refers to a connection of %s for %s that it has already given back to the pool", c.Pool, s)
+						return viol(i, e, "dangling_reference", c.Lease, "the session still refers to a connection of %s for %s that it has already given back to the pool", c.Pool, s)
 					}
 				}
 			}
 			if !after.KS && !after.InTx && len(after.tx) > 0 {
-				return viol(i, e, "held_outside_tx", "other_conn", "session is not in a transaction but still holds %d transaction connection(s)", len(after.tx))
+				return viol(i, e, "held_outside_tx", 0, "session is not in a transaction but still holds %d transaction connection(s)", len(after.tx))
 			}
 		}
 		if i == len(hist)-1 {
@@ -437,7 +441,89 @@ func replayOnce(cfg config, hist []string, wantTrace bool) result {
 	return out
 }
 
-var retries, replays int64
+// mechOf names the mechanism behind a violation from what is visible in the step's ledger
+// and the session state - the matcher of the known-finding signatures. Every pattern is
+// specific to one code path; anything else is "unclassified" and therefore always reported.
+func mechOf(cfg config, kind string, lease int, op string, entries []sessrig.Entry, before sessState, w *sessrig.World) string {
+	var mine []sessrig.Entry
+	pingFailed, otherClosedRecycled := false, false
+	for _, x := range entries {
+		if x.Lease == lease && x.Conn != 0 {
+			mine = append(mine, x)
+		}
+		if x.Op == "ping" && x.Res != "ok" {
+			pingFailed = true
+		}
+	}
+	closedNow := map[int]bool{}
+	for _, x := range entries {
+		if x.Op == "recycle" && x.Res == "discard" && x.Lease != lease {
+			closedNow[x.Lease] = true
+		}
+	}
+	otherClosedRecycled = len(closedNow) > 0
+	gotHere, setupFailed := false, false
+	for _, x := range mine {
+		if x.Op == "get" {
+			gotHere = true
+		}
+		if (x.Op == "begin" || x.Op == "set_autocommit" || x.Op == "write_set") && (x.Res == "err" || x.Res == "closed") {
+			setupFailed = true
+		}
+	}
+	inTxBefore, inKsBefore := false, false
+	for _, c := range before.tx {
+		if c.Lease == lease {
+			inTxBefore = true
+		}
+	}
+	for _, c := range before.ks {
+		if c.Lease == lease {
+			inKsBefore = true
+		}
+	}
+	closed := false
+	for _, c := range w.Conns() {
+		if c.Lease == lease {
+			closed = c.Closed
+		}
+	}
+	unsharded := op == "R0" || op == "W0"
+	switch kind {
+	case "double_release":
+		if unsharded && gotHere && setupFailed {
+			// getTransactionConn / getBackendKsConn close+recycle the connection and still return
+			// it; ExecuteSQL's deferred recycleBackendConn recycles it again
+			return "failed_setup_conn_returned_twice"
+		}
+		if cfg.KS && op == "PING" && pingFailed {
+			return "ks_conns_reused_after_failed_ping"
+		}
+	case "use_after_release":
+		if cfg.KS && op == "PING" && pingFailed {
+			// handleKeepSessionPing recycles the pinned connections but leaves them in ksConns; the
+			// session exit path then rolls back / closes / recycles them again
+			return "ks_conns_reused_after_failed_ping"
+		}
+	case "dangling_reference":
+		if cfg.KS && closed && (inKsBefore || gotHere) {
+			// recycleBackendConn recycles a closed keep-session connection but leaves it in ksConns
+			return "closed_ks_conn_returned_but_still_pinned"
+		}
+	case "leak_unreferenced", "held_at_session_end", "open_tx_at_session_end":
+		if !cfg.KS && closed && inTxBefore && (op == "ROLLBACK" || op == "QUIT" || op == "DISC") {
+			// rollback() skips closed connections and then drops txConns
+			return "closed_tx_conn_skipped_by_rollback"
+		}
+		if !cfg.KS && inTxBefore && unsharded && otherClosedRecycled {
+			// recycleBackendConn on a closed connection -> recycleTx forgets every transaction connection
+			return "other_tx_conns_forgotten_after_conn_failure"
+		}
+	}
+	return "unclassified"
+}
+
+var retries, replays, unfired int64
 
 func replay(cfg config, hist []string, wantTrace bool) result {
 	for attempt := 0; attempt < 4000; attempt++ {
@@ -504,6 +590,19 @@ func canon(cfg config, w *sessrig.World, a *sessrig.Sess, used int, ended bool) 
 			sb.WriteString(ci.Init + ",")
 		}
 		sb.WriteString("];")
+	}
+	return sb.String()
+}
+
+func sigOf(f map[string]string) string {
+	ks := make([]string, 0, len(f))
+	for k := range f {
+		ks = append(ks, k)
+	}
+	sort.Strings(ks)
+	var sb strings.Builder
+	for _, k := range ks {
+		sb.WriteString(k + "=" + f[k] + " ")
 	}
 	return sb.String()
 }
@@ -590,8 +689,8 @@ func main() {
 		{User: sessrig.UserRWS, KS: false, Kinds: ek, Depth: depth, Faults: nf},
 		{User: sessrig.UserRWS, KS: true, Kinds: ek, Depth: depth, Faults: nf},
 		// the max_sql_execute_time path: a blocked Execute, the executor kills + closes
-		{User: sessrig.UserRW, KS: false, MaxExecMs: 400, Kinds: []string{"hang"}, Depth: 3, Faults: 1},
-		{User: sessrig.UserRW, KS: true, MaxExecMs: 400, Kinds: []string{"hang"}, Depth: 3, Faults: 1},
+		{User: sessrig.UserRW, KS: false, MaxExecMs: 400, Kinds: []string{"hang"}, Depth: r.Pick(2, 3), Faults: 1},
+		{User: sessrig.UserRW, KS: true, MaxExecMs: 400, Kinds: []string{"hang"}, Depth: r.Pick(2, 3), Faults: 1},
 	}
 	if r.Thorough() {
 		cfgs = append(cfgs,
@@ -601,6 +700,9 @@ func main() {
 	var states, transitions int64
 	perCfg := map[string]interface{}{}
 	firedKinds := map[string]int{}
+	classes := map[string]int{}
+	classEx := map[string]string{}
+	var flaky []string
 	var mu sync.Mutex
 	for _, cfg := range cfgs {
 		cfg := cfg
@@ -614,9 +716,16 @@ func main() {
 				if cfg.MaxExecMs > 0 {
 					// timeout configuration: only unsharded statements can hang (see NOTES.md)
 					var out []string
-					for _, e := range enabled(cfg, h) {
+					all := enabled(cfg, h)
+					last := map[string]int{} // op|pool -> highest position
+					for _, e := range all {
+						if pe := parseEvent(e); pe.F != nil && pe.F.Nth > last[pe.Op+"|"+pe.F.Pool] {
+							last[pe.Op+"|"+pe.F.Pool] = pe.F.Nth
+						}
+					}
+					for _, e := range all {
 						pe := parseEvent(e)
-						if pe.F != nil && pe.Op != "R0" && pe.Op != "W0" {
+						if pe.F != nil && ((pe.Op != "R0" && pe.Op != "W0") || pe.F.Nth != last[pe.Op+"|"+pe.F.Pool]) {
 							continue
 						}
 						out = append(out, e)
@@ -643,12 +752,34 @@ func main() {
 				}
 			},
 			OnViolation: func(h []string, res xstate.Result) {
+				// re-run 4 more times; a history whose verdict is not reproducible is never
+				// reported as a violation (it is counted, and makes the run an engine error
+				// unless reproducible violations exist as well)
+				var wg sync.WaitGroup
+				var differs int32
 				for i := 0; i < 4; i++ {
-					again := replay(cfg, h, false)
-					if again.res.Violation != res.Violation {
-						ev.Fatalf("nondeterministic verdict for %v %v: %q vs %q", cfg, h, res.Violation, again.res.Violation)
-					}
+					wg.Add(1)
+					go func() {
+						defer wg.Done()
+						again := replay(cfg, h, false)
+						if again.res.Violation != res.Violation {
+							atomic.AddInt32(&differs, 1)
+						}
+					}()
 				}
+				wg.Wait()
+				if differs > 0 {
+					mu.Lock()
+					flaky = append(flaky, cfg.String()+" "+strings.Join(h, ",")+": "+res.Violation)
+					mu.Unlock()
+					return
+				}
+				mu.Lock()
+				classes[sigOf(res.Features)]++
+				if _, ok := classEx[sigOf(res.Features)]; !ok {
+					classEx[sigOf(res.Features)] = cfg.String() + " " + strings.Join(h, ",")
+				}
+				mu.Unlock()
 				k := kase{Cfg: cfg, Hist: append([]string(nil), h...)}
 				r.Violation(ev.Witness{Summary: cfg.String() + " " + strings.Join(h, ",") + ": " + res.Violation, Features: res.Features, Case: k})
 			},
@@ -665,6 +796,12 @@ func main() {
 			break
 		}
 	}
+	if len(classes) > 0 {
+		fmt.Println("violation classes (count, features, first = shortest example):")
+		for _, k := range sessrig.SortedKeys(classes) {
+			fmt.Printf("  %5d %s\n        e.g. %s\n", classes[k], k, classEx[k])
+		}
+	}
 	for _, s := range []kase{
 		{cfgs[0], []string{"BEGIN", "WS!slice-1/master#4=closed", "ROLLBACK", "DISC"}},
 		{cfgs[0], []string{"AC0", "W0", "COMMIT!slice-0/master#0=err", "QUIT"}},
@@ -679,12 +816,17 @@ func main() {
 	r.Set("traces_validated_against_impl", transitions)
 	r.Set("replays_including_probes_and_order_retries", atomic.LoadInt64(&replays))
 	r.Set("order_retries", atomic.LoadInt64(&retries))
+	r.Set("fault_positions_absent_in_desc_order", atomic.LoadInt64(&unfired))
 	r.Set("per_configuration", perCfg)
 	r.Set("faults_fired_by_call_and_kind", firedKinds)
 	r.Set("rule", "BFS over histories of client commands (15 ops) with at most <fault_budget> injected backend faults per history; the fault positions of each command are enumerated exactly (every faultable backend call on every pool, kinds err/closed, or hang in the timeout configurations) and both map-iteration orders are explored for order-sensitive commands; states merged by canonical key; distinct_nontrivial = distinct canonical states reached (session status, txConns/ksConns with backend flags, unreferenced outstanding leases, idle queues, fault budget used)")
 	r.Assume("fake backend: err = error packet with healthy connection, closed = call fails and IsClosed() becomes true, hang = Execute blocks until Close(); the pool applies the real reset-on-put rule; a SetAutoCommit error does not additionally break the socket (the real DirectConnection closes its net.Conn there)")
 	r.Assume("timeout configurations use max_sql_execute_time=400ms real time: no ordinary fake call may take that long")
 	r.Assume("timeouts on the sharded execution path (executeMultipleSQLInSlice) are not injected: that path leaves the backend call running and does not close the connection")
+	r.Set("irreproducible_verdicts", len(flaky))
+	if len(flaky) > 0 && r.Violations() == 0 {
+		ev.Fatalf("%d histories gave a verdict that did not reproduce in 5 runs, e.g. %s", len(flaky), flaky[0])
+	}
 	if len(firedKinds) < 6 && !r.TimeUp() {
 		ev.Fatalf("vacuous run: only %d distinct (call,kind) faults fired", len(firedKinds))
 	}
